@@ -111,6 +111,8 @@ def parse_as(form, text, fmt, scratch, base=None):
         with os.fdopen(fd, "wb") as f: f.write(text.encode("utf-8"))
         try:
             kw["publicID"] = base or "http://ex.org/dir/doc"
+            if form in ("path", "location") and len(text) % 2:
+                kw.pop("format")       # the syntax is then taken from the file name's suffix
             if form == "path": ds.parse(source=pathlib.Path(p), **kw)
             elif form == "pathstr": ds.parse(source=p, **kw)
             elif form == "location": ds.parse(location=p, **kw)
@@ -118,6 +120,9 @@ def parse_as(form, text, fmt, scratch, base=None):
                 with open(p, "rb") as f: ds.parse(file=f, **kw)
         finally:
             os.remove(p)
+    elif form == "bytes-utf16":
+        # XML documents declare their own encoding (handed over as a binary file object: data=bytes is documented as UTF-8)
+        ds.parse(file=io.BytesIO(text.replace('encoding="utf-8"', 'encoding="utf-16"', 1).encode("utf-16")), **kw)
     elif form == "inputsource":
         from rdflib.parser import StringInputSource
         ds.parse(source=StringInputSource(text), **kw)
@@ -167,7 +172,7 @@ def run_case(case, st=None):
             return ("wrong-graph", "%s document read as a different graph:\nexpected %d statements, got %d\nonly expected: %s\nonly got: %s\n%s" % (
                 fmt, len(quads), len(got), [x for x in ek if x not in gk][:3], [x for x in gk if x not in ek][:3], text[:1500]))
         if case.get("forms"):
-            for form in FORMS:
+            for form in FORMS + (["bytes-utf16"] if fmt == "xml" else []):
                 try:
                     d2 = parse_as(form, text, fmt, SCRATCH)
                 except Exception as ex:
@@ -274,7 +279,7 @@ def lane_out(ctx):
 
 
 LANES = {"spell": dict(fn=lane_spell, quick=20000, thorough=400000), "out": dict(fn=lane_out, quick=12000, thorough=240000)}
-REQUIRED_COUNTERS = {"any": ["cmp:parse:" + f for f in SPELL_FMTS] + ["cmp:form:" + f for f in FORMS] +
+REQUIRED_COUNTERS = {"any": ["cmp:parse:" + f for f in SPELL_FMTS] + ["cmp:form:" + f for f in FORMS + ["bytes-utf16"]] +
                      ["cmp:strict-accept:nt", "cmp:strict-accept:nquads", "cmp:strict-same-graph:nt", "cmp:strict-same-graph:nquads",
                       "cmp:wellformed:xml", "cmp:wellformed:pretty-xml", "cmp:wellformed:trix", "cmp:wellformed:json-ld"]}
 
